@@ -341,18 +341,24 @@ func run(c Case) (f *failure, nontrivial bool) {
 func check(t ev.TB, c Case, labels ...string) {
 	f, nt := run(c)
 	if f != nil && !f.inconclusive {
-		if f2, _ := run(c); f2 == nil || f2.inconclusive {
-			// parent-timed kills are not reproducible step by step; keep the verdict only if it repeats
-			hasDelay := false
-			for _, r := range c.Rounds {
-				if strings.HasPrefix(r.Crash, "delay") {
-					hasDelay = true
-				}
+		// confirm by re-execution. Where a parent-timed kill lands is not reproducible, so a
+		// wrong resume position after such a kill is kept without confirmation; everything
+		// else must show again.
+		again := false
+		for i := 0; i < 2 && !again; i++ {
+			if f2, _ := run(c); f2 != nil && !f2.inconclusive {
+				again = true
 			}
-			if !hasDelay {
-				ev.Count("unconfirmed_failures", 1)
-				f = nil
+		}
+		hasDelay := false
+		for _, r := range c.Rounds {
+			if strings.HasPrefix(r.Crash, "delay") {
+				hasDelay = true
 			}
+		}
+		if !again && !(hasDelay && strings.Contains(f.msg, "resumed at")) {
+			ev.Count("unconfirmed_failures", 1)
+			f = nil
 		}
 	}
 	for _, r := range c.Rounds {
